@@ -28,6 +28,10 @@ pub fn run(args: &[Sx]) -> Sx {
     if names.len() != 2 || rows == 0 || cols == 0 || names[0] == names[1] || rows > 64 || cols > 64 {
         return bad_case();
     }
+    // outside the language (see RunC08.v): Rat Cholesky beyond 4x4, Rat QR with more than one reflection
+    if ty == 0 && ((op == 1 && rows > 4 && rows == cols) || (op == 3 && cols <= rows && std::cmp::min(rows - 1, cols) > 1)) {
+        return bad_case();
+    }
     with_ty!(ty, go(op, (names[0], names[1]), rows, cols, &args[5]))
 }
 
